@@ -682,7 +682,8 @@ func (fc *FnCtx) pureResult(ci calleeInfo, resT types.Type) Val {
 	}
 	var sorts []string
 	var as []Term
-	for _, a := range ci.args {
+	var flat func(a Val)
+	flat = func(a Val) {
 		switch a.K {
 		case KInt, KBool, KStr, KReal:
 			sorts = append(sorts, leafSort(a.K))
@@ -695,7 +696,20 @@ func (fc *FnCtx) pureResult(ci calleeInfo, resT types.Type) Val {
 		case KFunc:
 			sorts = append(sorts, "Int")
 			as = append(as, fc.vc.funcID(a))
+		case KStruct, KTuple:
+			for _, f := range a.Fs {
+				flat(f)
+			}
+		case KIface:
+			sorts = append(sorts, "Int", "Int")
+			as = append(as, a.S, a.Tag)
+		case KSlice:
+			sorts = append(sorts, "Int", "Int", "Int")
+			as = append(as, a.Sl.Base, a.Sl.Off, a.Sl.Len)
 		}
+	}
+	for _, a := range ci.args {
+		flat(a)
 	}
 	name := "pure<" + ci.name + ">"
 	fc.vc.sc.declareFun(name, sorts, leafSort(k))
